@@ -691,7 +691,7 @@ int tls12_do_accept(TLS_CONNECT *conn)
 	const uint8_t *client_exts;
 	size_t client_exts_len;
 	uint8_t server_exts[TLS_MAX_EXTENSIONS_SIZE];
-	size_t server_exts_len;
+	size_t server_exts_len = 0; // stays 0 when the ClientHello carries no extensions
 	int curve = TLS_curve_sm2p256v1; // 这个是否应该在conn中设置？		
 
 	// ServerKeyExchange
